@@ -67,6 +67,7 @@ SUGGEST[8] = 'a pandas pitfall (groupby silently dropping NaN keys or re-sorting
 SUGGEST[9] = 'a helper shared by two public functions whose semantics is changed for the benefit of one caller; a generator / iterator / zip / map that is consumed once and silently empty or shorter afterwards; a physics-level mix-up that keeps shapes and types intact (origin vs destination, site index vs atom index vs label index, the species of the sites vs the diffusing species, fractional vs Cartesian in one branch only, radius vs diameter, angle in degrees vs radians, k_B in eV vs J, per-atom vs per-formula-unit); an intermediate kept in lower precision or rounded for display and then reused; a search window, image range or neighbour shell that is sufficient for large cells but not for cells smaller than twice the cut-off (or for cut-offs beyond half the cell); cumulative quantities restarted or double counted at a boundary (part edges, chunked processing, extend); a validity check that silently clips, clamps, sorts or de-duplicates the user input instead of honouring it; a condition written for the common sign / direction only (positive steps, increasing times, start < stop, first site index lower than the second); behaviour that depends on whether an optional argument is passed positionally, by keyword, as None or omitted; an object that remembers the arguments of its FIRST use (lazy initialisation) when it is reused with other arguments; equality / hashing / ordering of library objects (Species, Lattice, PeriodicSite, numpy scalars vs Python numbers) used as dict keys or in sets.'
 SUGGEST[10] = 'this is the tenth round, so the obvious input classes are all covered: think about what a team that GENERATES inputs would still not generate or not compare. For instance: a result that is right in value but wrong in its ordering, index, column labels, dtype or shape convention and is consumed by the next stage of the pipeline; a quantity that is right for each atom / site / part separately but wrong once aggregated in the library (or the reverse); an input that is legal but unusual in its FORM (a pymatgen Structure with site properties, partial occupancies forbidden elsewhere, labels that are None or numeric, a Lattice given with pbc flags, a trajectory whose species list contains DummySpecies or isotopes, a site structure with duplicate or nearly coincident sites, sites of several species); a method called on the result of another method in an order nobody tests (metrics of a filtered split part of a drift-corrected trajectory; jumps of a part of a part; the volume of a centre-of-mass trajectory); two features that each pass their own checks but interact (inner fraction with per-label radii with the automatic radius fallback; supercell with a rotated lattice; percolation with diagonal=False; equal_parts with extend); a change that only matters the SECOND time a code path runs in one process, or only the first; a change whose effect is below 1e-9 relative for typical data but grows with system size, run length or magnitude of the coordinates.'
 SUGGEST[11] = 'look at the PUBLIC SURFACE around the anchored code that is used less often: convenience methods and properties that forward to the main routine (Trajectory.transitions_between_sites / to_volume / metrics / radial_distribution_between_species, Transitions.jumps / radial_distribution / split, Jumps.collective / rates / activation_energies / jump_diffusivity / n_solo_jumps / solo_fraction / jumps_counter / site_pairs, Volume.to_structure / find_peaks / site_to_voxel / voxel_to_cart_coords / normalized / probability / from_volumetric_data, FreeEnergyVolume.optimal_path / optimal_n_paths / optimal_percolating_path, Pathway.total_energy / total_length / start_site / stop_site / cartesian / fractional views, ShapeAnalyzer.from_structure / shift_sites / optimize_sites / to_structure and the ShapeData views, Orientations.normalize / vectors_spherical / autocorrelation, TrajectoryMetricsStd.*), optional arguments that are rarely passed (ionic_step_skip, ionic_step_offset, constant_lattice, type_mapping, atom_style, equal_parts, n_parts, dimensions, z_ion, percolate, peaks, diagonal, max_energy_threshold, supercell, radius, max_steps, max_dist, minimal_residence, conversion_method, site_inner_fraction), and helpers shared by several features (utils.py: ffill, bfill, integer_remap, meanfreq, fft_autocorrelation, cartesian_to_spherical; caching.py). A refactoring that moves code between an entry point and its helper, swaps the order of two optional arguments, changes a default in only one signature, or makes a property compute something slightly different from the method it mirrors is the kind of change wanted. Also welcome: numpy vectorisations or pandas rewrites of an explicit loop that agree with the loop except for a special row / column / group.'
+SUGGEST[12] = 'this time weigh REALISM highest: imagine the pull requests this project is actually likely to receive in the next year and what could go subtly wrong in them - porting a loop to numpy or numba-style code, replacing pymatgen calls by MDAnalysis / scipy equivalents (or the reverse) with slightly different conventions, supporting a new input (NPT / variable cell, several diffusing species, sites of several kinds, a start / stop / stride on frames), adding type coercions (np.asarray, astype, float(...)) at API boundaries, bumping a dependency whose default changed (pandas groupby / sort, numpy copy semantics, networkx weight handling, scipy fft normalisation), adding progress bars / logging / warnings that touch the data, deduplicating two nearly identical code paths, fixing a reported bug for one input class in a way that shifts behaviour for another, caching for speed, parallelising over atoms or frames with chunking. The change should look like an improvement in review, keep every docstring true at first sight, and break the property only for an input class that a reviewer would not think of.'
 NOTES = {
     'C18': 'Note: fft_autocorrelation is already known to deviate from the definition for lags > 0 (inverse FFT length) and symmetrize(sym_ops=<single 2-D matrix>) is known to mishandle a single matrix; do not rely on those.',
     'C20': 'Note: Jumps.collective() is already known to keep its Jumps alive through the cached Collective; do not rely on that.',
